@@ -1,5 +1,6 @@
 import ShellOp.Util
 import ShellOp.Model.Metrics
+import ShellOp.Model.MetricsText
 /-! Line-protocol suite for C16 (hook metrics). Core-only. -/
 namespace ShellOp.Drv.C16
 open ShellOp ShellOp.Util ShellOp.Metrics
@@ -14,6 +15,8 @@ structure St where
   /-- batches of the concurrent step being collected: (common labels, operations, map order) -/
   par : List (Labels × List Op × List Nat) := []
   lastPar : List (Labels × List Op) := []
+  /-- text of the metrics file of the last `tsend` -/
+  lastText : List Char := []
 
 def parseLabels (s : String) : Option Labels :=
   if s == "-" || s == "" then some []
@@ -66,6 +69,24 @@ def refLinear (ref : List Spec.RSeries) (bs : List (Nat × Labels × List Op)) :
 def errsByIndex (n : Nat) (res : List (Nat × Bool)) : List Bool :=
   (List.range n).map fun i => (res.lookup i).getD false
 
+def hexVal (c : Char) : Option Nat :=
+  if c.isDigit then some (c.toNat - '0'.toNat)
+  else if 'a' ≤ c && c ≤ 'f' then some (c.toNat - 'a'.toNat + 10)
+  else none
+
+def unhexL : List Char → Option (List Char)
+  | [] => some []
+  | a :: b :: r => do
+    let x ← hexVal a
+    let y ← hexVal b
+    let t ← unhexL r
+    some (Char.ofNat (16 * x + y) :: t)
+  | _ => none
+
+/-- File text from its hex bytes (`-` = empty). -/
+def unhex (s : String) : Option (List Char) :=
+  if s == "-" || s == "" then some [] else unhexL s.toList
+
 def step (st : St) (toks : List String) : St × String :=
   match toks with
   | "op" :: rest =>
@@ -86,6 +107,39 @@ def step (st : St) (toks : List String) : St × String :=
       ({ st with m := m', pending := [], last := st.pending, lastCommon := common },
         s!"err={if ok then 0 else 1} {dumpModel m'}")
     | _, _, _ => (st, "bad-op")
+  | "tsend" :: rest =>
+    -- a metrics FILE: its bytes through the reader (`HookOutput.fromReader`, what `Hook.Run` does), then
+    -- — only if the reader got through — the operations it spells (the preceding `op` lines) through
+    -- `SendBatch` (what `handleRunHook` does)
+    match (kv? "hooklabel" rest).bind String.toNat?, (kv? "hook" rest).bind String.toNat?,
+          (kv? "order" rest).bind natList?, (kv? "hex" rest).bind unhex with
+    | some hl, some h, some order, some text =>
+      let common : Labels := [(hl, h)]
+      let fin (r : State × Bool) : St × String :=
+        ({ st with m := r.1, pending := [], last := st.pending, lastCommon := common, lastText := text },
+          s!"err={if r.2 then 0 else 1} {dumpModel r.1}")
+      match MetricsText.fromFile text with
+      | none => fin (MetricsText.runFile st.m common text st.pending order)
+      | some ms =>
+        if MetricsText.abstractsAll ms st.pending then
+          fin (MetricsText.runFile st.m common text st.pending order)
+        else if !ms.all HookOutput.validOp then
+          -- the reader got through a damaged text that decodes to other documents than the `op` lines: EVERY
+          -- typed reading of what it decoded is an invalid batch (`rejected_file_noop`), so the answer does
+          -- not depend on the `op` lines
+          fin (st.m, false)
+        else (st, "text-does-not-spell-the-op-lines")
+    | _, _, _, _ => (st, "bad-op")
+  | ["oracle", "tsend", err, dump] =>
+    -- the first clause of the property on the FILE the hook wrote: unless the file is a well-formed stream
+    -- of documents that are all valid metric operations, the execution fails and the registry shows what
+    -- it showed before; otherwise the reference registry takes the batch
+    let (ref', ok) :=
+      if HookOutput.metricsOk st.lastText then Spec.applyBatch st.ref st.lastCommon st.last
+      else (st.ref, false)
+    let want := s!"err={if ok then 0 else 1} dump={dumpRef ref'}"
+    if s!"{err} {dump}" == want then ({ st with ref := ref' }, "true")
+    else ({ st with ref := ref' }, s!"false want {want}")
   | "pbatch" :: rest =>
     match (kv? "hooklabel" rest).bind String.toNat?, (kv? "hook" rest).bind String.toNat?,
           (kv? "order" rest).bind natList? with
